@@ -596,6 +596,14 @@ def discharge_partial(an, prog, b, blk, t, c, cls, why):
                 return True, "split_at(s.len()): the split point is the slice's own length"
             if mid[0] == "call" and mid[2] is not None and (mid[2].nsyn in ("std::cmp::Ord::min", "std::cmp::min") or mid[2].npath.endswith("::min")) and any(is_len_of_recv(a) for a in mid[3]):
                 return True, "split_at(min(.., s.len())): the split point is bounded by the slice's own length"
+    if cls == "documented" and re.search(r"<impl \[T\]>::(sort|sort_unstable|sort_by_key|sort_unstable_by_key|sort_by_cached_key|binary_search_by_key)$", c.npath):
+        # documented panic: "may panic if the implementation of Ord for K is not a total order".  Keys that are
+        # integers, std types or crate types with a derived Ord are totally ordered; floats have no Ord, and a
+        # hand-written comparator (sort_by) is not covered here.
+        tys = [str(a) for a in (c.args or [])[:2]]
+        hand = [ty for ty in tys if any(pi.get("self_ty") == ty and "Ord" in str(pi.get("trait_ref", "")) and not pi.get("derived") for pi in (bb.parent_impl for bb in prog.bodies.values() if bb.parent_impl))]
+        if not hand and not any(re.search(r"\bf(32|64)\b", ty) for ty in tys):
+            return True, "sort key %s: Ord is derived / a std total order (no hand-written Ord impl in the crate for it)" % tys[-1:]
     if cls == "documented":
         # documented '# Panics' but no discharge class known
         return False, "%s — no discharge rule for this API: %s" % (c.npath, why)
